@@ -116,7 +116,9 @@ pub(crate) fn check_monitor(ctx: &Context) {
     assert!(!fs.c14_violation, "[C14] a file was created non-exclusively, written other than by appending through its creator, renamed, truncated, reopened for writing, or created with an id not above every earlier id");
     let mut id = 0;
     while id < mfs::NID {
-        if fs.inodes[dslot(id)].linked && fs.inodes[dslot(id)].len > 0 {
+        // only files written by this process under this configuration (a laid-out file may stem
+        // from a run with another max_file_size)
+        if fs.inodes[dslot(id)].linked && fs.inodes[dslot(id)].born && fs.inodes[dslot(id)].len > 0 {
             let (_, _, _, _, last) = ground_truth(ctx, id);
             let before_last = (fs.inodes[dslot(id)].len - last) as u64;
             assert!(before_last <= ctx.conf.max_file_size, "[C14] a data file grew beyond max_file_size by more than one entry");
